@@ -285,10 +285,21 @@ Definition meta_new (v : value) : option value :=
   | Some sz => if length v <? sz - 4 then Some v else None   (* _mpt_geninfo_set needs len < size *)
   end.
 
-(* mpt_meta_set on a text / empty / default metatype: replace, old one kept on failure *)
+(* text of up to 249 bytes is held by the basic metatype, longer text by a buffer metatype *)
+Definition fits_basic (v : value) : bool :=
+  match geninfo_size (length v + 1) with Some _ => true | None => false end.
+
+(* mpt_meta_set on a text / empty / default metatype: replace, old one kept on failure.
+   Without value (val == NULL) the old metatype is first asked for an iterator to rewind:
+   the basic metatype has none and is replaced by mpt_metatype_default() (no text); the
+   buffer metatype that holds long text IS an iterator over that text, it is rewound and
+   STAYS (the same branch rewinds the argument list mpt_init stores at mpt.args) *)
 Definition meta_set (old : option value) (val : option value) : option (option value) :=
   match val with
-  | None => Some None                               (* mpt_metatype_default(): no text *)
+  | None => match old with
+            | Some v => if fits_basic v then Some None else Some old
+            | None => Some None
+            end
   | Some v => match meta_new v with Some v' => Some (Some v') | None => None end
   end.
 
@@ -881,9 +892,6 @@ Inductive gval := GMissing | GFound | GText (v : value) | GBadType.
 (* the C store keeps text of up to 249 bytes in the basic metatype ('s' and vector of
    char), longer text in a buffer metatype (vector of char and iterator, no 's');
    the metatypes made by the C++ metatype::create offer both for every length *)
-Definition fits_basic (v : value) : bool :=
-  match geninfo_size (length v + 1) with Some _ => true | None => false end.
-
 Definition value_conv (cxx : bool) (ty : gty) (v : value) : gval :=
   match ty with
   | GExist => GFound
@@ -958,6 +966,81 @@ Definition cfg_unset (g : list node) (base : path) : cres (list node * rc) :=
              end
       end
   end.
+
+(* configAssign(cfg, path, NULL) - assignment WITHOUT value through the C store: the element is
+   created (without value) when it does not exist, mpt_meta_set(&node->_meta, NULL) when it does;
+   a view whose path is empty does that to its base element; the global configuration has no
+   element of its own (BadValue).  The return value is the type code of what the element
+   holds afterwards: RcOk = it still holds a value (long text, rewound in place), RcCleared = it
+   holds none (created, dropped, or mpt_node_assign returned 0 for a name that cannot be stored:
+   configAssign answers 0 for val == NULL all the same) *)
+Definition rc_of_val (v : option value) : rc := match v with Some _ => RcOk | None => RcCleared end.
+
+Definition cfg_assign_none (g : list node) (base p : path) : cres (list node * rc) :=
+  if plen base =? 0 then
+    if plen p =? 0 then Done (g, RcRefused)
+    else
+      let* (g', t) := node_assign g p None in
+      match t with
+      | None => Done (g', RcCleared)
+      | Some t => match node_at g' t with
+                  | None => MemFault
+                  | Some nd => Done (g', rc_of_val (nval' nd))
+                  end
+      end
+  else
+    let* (g1, tb) := make_global g base in
+    match tb with
+    | None => Done (g1, RcRefused)
+    | Some tb =>
+      match node_at g1 tb with
+      | None => MemFault
+      | Some nd =>
+        if plen p =? 0 then
+          match meta_set (nval' nd) None with
+          | None => Done (g1, RcRefused)
+          | Some v' => Done (upd_at g1 tb (fun n => Node (nname' n) v' (nkids' n)), rc_of_val v')
+          end
+        else
+          let* (kids', t) := node_assign (nkids' nd) p None in
+          let g2 := upd_at g1 tb (fun n => Node (nname' n) (nval' n) kids') in
+          match t with
+          | None => Done (g2, RcCleared)
+          | Some t => match node_at kids' t with
+                      | None => MemFault
+                      | Some x => Done (g2, rc_of_val (nval' x))
+                      end
+          end
+      end
+    end.
+
+(* mpt_node_assign(&base, dest, val) with a value mpt_meta_new refuses (no text in it: an
+   integer, a float, ..): on an existing element mpt_meta_set fails (no object, no
+   configuration in a text metatype; the old value stays), otherwise mpt_meta_new fails
+   BEFORE the first node is created: nothing changes, 0 is returned *)
+Definition node_assign_bad (f : list node) (dest : path) : cres (list node * option trail) :=
+  let* (_, _) := node_query f dest in Done (f, None).
+
+(* configAssign(cfg, path, val) with such a value: BadOperation (BadValue for the empty path on
+   the global handle); a view has made sure of its base element before *)
+Definition cfg_assign_bad (g : list node) (base p : path) : cres (list node * rc) :=
+  if plen base =? 0 then
+    if plen p =? 0 then Done (g, RcRefused)
+    else let* (g', _) := node_assign_bad g p in Done (g', RcRefused)
+  else
+    let* (g1, tb) := make_global g base in
+    match tb with
+    | None => Done (g1, RcRefused)
+    | Some tb =>
+      match node_at g1 tb with
+      | None => MemFault
+      | Some nd =>
+        if plen p =? 0 then Done (g1, RcRefused)
+        else
+          (* nothing is written: the children stay what they are *)
+          let* (_, _) := node_assign_bad (nkids' nd) p in Done (g1, RcRefused)
+      end
+    end.
 
 (* configQuery with a handler that walks the collection (collectionEach): value of
    the element and the nodes beneath it (the top-level list for the empty path) *)
@@ -1037,7 +1120,9 @@ Inductive wop :=
 | WGet (base : path) (s : option (list byte)) (ty : gty)
 | WNode (base : path)
 | WUnset (base : path)
-| WList (base p : path).
+| WList (base p : path)
+| WAssignNone (base p : path)                                          (* assign(path, NULL) *)
+| WAssignBad (base p : path).                                          (* assign(path, value without text) *)
 
 Inductive wout :=
 | WOut (o : cout)
@@ -1069,6 +1154,8 @@ Definition wstep (g : list node) (o : wop) : list node * wout :=
     end
   | WUnset b => wlift g (cfg_unset g b) (fun '(g', r) => (g', WOut (OutRc r)))
   | WList b p => wlift g (cfg_list g b p) (fun l => (g, WListing l))
+  | WAssignNone b p => wlift g (cfg_assign_none g b p) (fun '(g', r) => (g', WOut (OutRc r)))
+  | WAssignBad b p => wlift g (cfg_assign_bad g b p) (fun '(g', r) => (g', WOut (OutRc r)))
   end.
 
 Fixpoint wrun (g : list node) (ops : list wop) : list wout * list node :=
@@ -1112,4 +1199,98 @@ Fixpoint xrun (a : list item) (ops : list xop) : list xout * list item :=
   match ops with
   | [] => ([], a)
   | o :: r => let '(a', out) := xstep a o in let '(outs, af) := xrun a' r in (out :: outs, af)
+  end.
+
+(* ==========================================================================
+   mpt_meta_set (meta_set.c) on ONE metatype reference, for every kind of value a node
+   can hold - not only the text metatypes mpt_meta_new makes.  The function asks the
+   old value, in this order,
+     1. for an object (TypeObjectPtr): a value is handed to it (mpt_object_set_value(obj, 0, val):
+        an error is the answer of the whole call, nothing is replaced), "no value" resets it
+        (set_property(obj, 0, 0): on refusal the call goes on);
+     2. for a configuration (TypeConfigPtr): assign(cfg, NULL, val); on refusal the call goes on;
+     3. without value: for an iterator to rewind (kept when that works), else the default
+        metatype replaces the old value;
+     4. with a value: mpt_meta_new(val) replaces the old value (BadOperation and nothing
+        changed when the value holds no text).
+   The old value is released exactly when it is replaced.
+   ========================================================================== *)
+Inductive cell :=
+| CNull                                   (* no metatype *)
+| CDefault                                (* mpt_metatype_default() *)
+| CText (v : value)                       (* made by mpt_meta_new *)
+| CObj (acc : bool) (t : option value)    (* a value that is an object; accepts / refuses what it is given *)
+| CCfg (acc : bool) (t : option value)    (* a value that is a configuration *)
+| CIter (acc : bool) (t : value)          (* a value that is an iterator; rewinds / refuses *)
+| CView.                                  (* a view of the process-wide configuration: configAssign refuses path == NULL *)
+
+(* what is assigned: nothing (val == NULL), a value without text, text *)
+Inductive aval := ANone | ABad | AText (v : value).
+Inductive mres := MOk | MErr.
+
+Definition cell_is_null (c : cell) : bool := match c with CNull => true | _ => false end.
+
+Definition meta_set_cell (c : cell) (a : aval) : mres * cell * bool :=
+  let by_object :=
+    match c with
+    | CObj acc t =>
+      match a with
+      | ANone => if acc then Some (MOk, CObj acc None, false) else None
+      | AText v => if acc then Some (MOk, CObj acc (Some v), false) else Some (MErr, c, false)
+      | ABad => Some (MErr, c, false)
+      end
+    | _ => None
+    end in
+  match by_object with
+  | Some r => r
+  | None =>
+    let by_config :=
+      match c with
+      | CCfg true t =>
+        match a with
+        | ANone => Some (MOk, CCfg true None, false)
+        | AText v => Some (MOk, CCfg true (Some v), false)
+        | ABad => None
+        end
+      | _ => None
+      end in
+    match by_config with
+    | Some r => r
+    | None =>
+      match a with
+      | ANone =>
+        match c with
+        | CIter true _ => (MOk, c, false)
+        | CText v => if fits_basic v then (MOk, CDefault, true) else (MOk, c, false)
+        | CNull => (MOk, CDefault, false)
+        | _ => (MOk, CDefault, true)
+        end
+      | ABad => (MErr, c, false)
+      | AText v =>
+        match meta_new v with
+        | Some v' => (MOk, CText v', negb (cell_is_null c))
+        | None => (MErr, c, false)
+        end
+      end
+    end
+  end.
+
+(* the text a value shows *)
+Definition cell_text (c : cell) : option value :=
+  match c with
+  | CText v => Some v
+  | CObj _ t | CCfg _ t => t
+  | CIter _ t => Some t
+  | _ => None
+  end.
+
+(* specification of one call: [acc] = the call succeeded, [dropped] = the value shows no text
+   afterwards; an accepted text is what the value shows afterwards, a refused call changes
+   nothing, "no value" leaves either no text or - the value's own decision (an iterator is
+   rewound and stays) - the text that was there *)
+Definition cell_spec (txt : option value) (a : aval) (acc dropped : bool) : option value :=
+  match a with
+  | AText v => if acc then Some v else txt
+  | ABad => txt
+  | ANone => if dropped then None else txt
   end.
